@@ -30,6 +30,9 @@ func NewWith(convert StructOptions, value interface{}) Value {
 
 	// see if value implements MarshalValue
 	if mar, ok := value.(Marshaler); ok {
+		if v := reflect.ValueOf(value); v.Kind() == reflect.Ptr && v.IsNil() {
+			return Null{} // (as encoding/json does for a nil pointer to a json.Marshaler)
+		}
 		return mar.MarshalValue()
 	}
 
